@@ -6,7 +6,7 @@
    comma-joined join values are k, in left-file order; right_out o L r = what the nested-loop reading of the property
    statement prescribes for right record r: its pairs (compose l r, left-file order), or nothing under --np, or, when
    it matches nothing / has no key, its unpaired form under --ur. *)
-From Miller Require Import Base.Bytes Base.Record C13.Model C13.Proofs C13.ProofsSorted C13.Order C13.ProofsMerge.
+From Miller Require Import Base.Bytes Base.Record C13.Model C13.Proofs C13.ProofsSorted C13.Order C13.ProofsMerge C13.ProofsKeyless C13.ProofsCompose C13.ProofsOnce C13.ProofsGenuine.
 From Coq Require Import Sorted.
 From Coq Require Import Permutation.
 
@@ -83,50 +83,130 @@ Theorem C13_composition_other_names :
 Proof. exact put_others_keys_incl. Qed.
 Print Assumptions C13_composition_other_names.
 
-(* sorted-input mode (-s), ALL inputs, sorted or not: the output decomposes, right record by right record, into the
-   left-unpaired records flushed at that point followed by records built from that right record only (its unpaired form
-   and/or its pairs), plus a final flush; and the left records behind the flushed ones (before renaming), together with
-   some rest D (the records of buckets that were paired), are a permutation of the left file: no left record is emitted
-   as unpaired twice, none is invented, none is lost without its bucket having been paired.
-   _partial: this is the left-record accounting only, but it needs no sortedness and no key-completeness; the equality
-   with the default mode on key-sorted inputs is C13_sorted_equals_unsorted_partial below. *)
-Theorem C13_sorted_mode_accounts_for_left_records_partial :
-  forall o left right, ul o = true ->
-  exists (steps : list (list record * list record)) (final D : list record),
-    join_sorted o left right
-    = flat_map (fun s => map (unpaired_left o) (fst s) ++ snd s) steps ++ map (unpaired_left o) final
-    /\ Forall2 (fun s r => from_right o r (snd s)) steps right
-    /\ Permutation (lefts o left) (List.concat (map fst steps) ++ final ++ D).
-Proof. exact join_sorted_conserves_left. Qed.
-Print Assumptions C13_sorted_mode_accounts_for_left_records_partial.
+(* sorted-input mode (-s), ALL inputs, sorted or NOT: every record is accounted for exactly once.
+   The output is, right record by right record, [the left records flushed as unpaired at that point] followed by
+   EITHER the right record's unpaired form (under --ur) OR its pairs with one whole non-empty bucket (unless --np)
+   -- emit; then the final flush.  The left file is, as a multiset, the disjoint union of everything flushed as unpaired
+   and of the buckets Bs; every bucket of Bs is non-empty and was paired with at least one right record, and every
+   bucket a right record was paired with is in Bs.  Hence no left record is lost, none is flushed twice, none is both
+   paired and flushed; a right record is never both unpaired and paired.  On unsorted input -s pairs fewer records than
+   the default mode ("else not all records will be paired", mlr join --help) -- but this accounting still holds.
+   genuine: the pairs are real matches -- every left record of the bucket a right record is paired with has exactly
+   that right record's join values, field by field (one step per right record: Forall2).
+   (Buckets are compared as lists of records: two buckets with identical contents are not told apart.) *)
+Theorem C13_sorted_mode_exactly_once_on_all_inputs :
+  forall o left right, ul o = true -> List.length (lj o) = List.length (rj o) ->
+  exists (steps : list (list record * list record)) (final : list record) (Bs : list (list record)),
+    join_sorted o left right = emit_all o steps right ++ map (unpaired_left o) final
+    /\ Forall2 (genuine o) steps right
+    /\ Permutation (lefts o left) (List.concat (map fst steps) ++ final ++ List.concat Bs)
+    /\ (forall B, In B Bs -> B <> [] /\ In B (map snd steps))
+    /\ (forall s, In s steps -> snd s <> [] -> In (snd s) Bs).
+Proof. exact join_sorted_exactly_once_genuine. Qed.
+Print Assumptions C13_sorted_mode_exactly_once_on_all_inputs.
 
-(* sorted-input mode (-s) = default mode as multisets of records, on key-sorted inputs, for every flag combination,
-   duplicate keys on both sides and key-less right records.
-   left_sorted: the left records are in non-decreasing order of their join values compared field by field as bytes
-   (what -s documents); ROK: the same for the keyed right records, plus "the comma-joined key text identifies the key"
-   among the records at hand (the default mode buckets by that text: finding join-key-comma-collision).
-   _partial: side condition that every left record (after --lk) has all its join fields (non-empty under --ignore-empty);
-   key-less LEFT records on sorted input are covered by correspondence and the oracle only. *)
-Theorem C13_sorted_equals_unsorted_partial :
+(* non-vacuity on an UNSORTED input: the left key 1 comes back after key 2; the second run of key 1 is never paired, the
+   default mode would pair it; all 4 left and 3 right records appear exactly once as paired or unpaired *)
+Example C13_exactly_once_unsorted_nonvacuous :
+  let o := mkOpts [B "id"] [B "id"] [B "id"] [] [] None false true true false in
+  let left := [[(B "id", B "1"); (B "l", B "a")]; [(B "id", B "2"); (B "l", B "b")]; [(B "id", B "1"); (B "l", B "c")]; [(B "l", B "d")]] in
+  let right := [[(B "id", B "1"); (B "r", B "p")]; [(B "id", B "2"); (B "r", B "q")]; [(B "id", B "1"); (B "r", B "s")]] in
+  join_sorted o left right
+  = [[(B "id", B "1"); (B "l", B "a"); (B "r", B "p")];
+     [(B "id", B "2"); (B "l", B "b"); (B "r", B "q")];
+     [(B "id", B "1"); (B "r", B "s")];
+     [(B "id", B "1"); (B "l", B "c")]; [(B "l", B "d")]]
+  /\ List.length (join_unsorted o left right) = 6%nat.
+Proof. vm_compute. split; reflexivity. Qed.
+
+(* sorted-input mode (-s) = default mode as multisets of records, on key-sorted inputs, for every flag combination
+   (--np/--ul/--ur/--ignore-empty/--lk/--lp/--rp/-l/-r/-j), duplicate keys on both sides, and key-less records ANYWHERE
+   on both sides (records lacking a join field, or holding an empty one under --ignore-empty: -s honours it).
+   keyed o L: the left records (after --lk) that have all join fields; left_sorted: in non-decreasing order of their join
+   values compared field by field as bytes (what -s documents); ROK: the same for the keyed right records, plus
+   "the comma-joined key text identifies the key" among the records at hand -- the default mode buckets by that text
+   (finding join-key-comma-collision), and without it the two modes DO differ: C13_sorted_equals_unsorted_needs_key_identification_refuted. *)
+Theorem C13_sorted_equals_unsorted :
   forall o left right,
-    (forall l, In l (lefts o left) -> has_keys o l = true) ->
     List.length (lj o) = List.length (rj o) ->
-    left_sorted o (lefts o left) ->
-    ROK o (lefts o left) right ->
+    left_sorted o (keyed o (lefts o left)) ->
+    ROK o (keyed o (lefts o left)) right ->
     Permutation (join_sorted o left right) (join_unsorted o left right).
-Proof. exact join_sorted_perm_unsorted. Qed.
-Print Assumptions C13_sorted_equals_unsorted_partial.
+Proof. exact join_sorted_perm_unsorted_full. Qed.
+Print Assumptions C13_sorted_equals_unsorted.
 
 (* with ONE join field the identification condition is automatic: sorted inputs suffice *)
-Theorem C13_sorted_equals_unsorted_single_field_partial :
+Theorem C13_sorted_equals_unsorted_single_field :
   forall o left right,
     List.length (lj o) = 1%nat -> List.length (rj o) = 1%nat ->
-    (forall l, In l (lefts o left) -> has_keys o l = true) ->
-    left_sorted o (lefts o left) ->
+    left_sorted o (keyed o (lefts o left)) ->
     StronglySorted (rle o) right ->
     Permutation (join_sorted o left right) (join_unsorted o left right).
-Proof. exact join_sorted_perm_unsorted_single. Qed.
-Print Assumptions C13_sorted_equals_unsorted_single_field_partial.
+Proof. exact join_sorted_perm_unsorted_full_single. Qed.
+Print Assumptions C13_sorted_equals_unsorted_single_field.
+
+(* the mechanism: the -s output on a left file is, as a multiset, the -s output on its keyed records plus (under --ul)
+   the unpaired forms of its key-less records, for ALL inputs sorted or not (the same holds of the default mode, as an
+   equation of lists) *)
+Theorem C13_sorted_mode_keyless_left_records_only_add_unpaired :
+  forall o left right,
+    Permutation (join_sorted o left right) (join_sorted o (keyed_left o left) right ++ ulmap o (keyless o (lefts o left)))
+    /\ join_unsorted o left right = join_unsorted o (keyed_left o left) right ++ ulmap o (keyless o (lefts o left)).
+Proof. exact keyless_both_modes. Qed.
+Print Assumptions C13_sorted_mode_keyless_left_records_only_add_unpaired.
+
+(* without the identification condition the statement is false of the code: two join fields whose values contain the
+   internal "," joiner (sorted trivially: one record a side); the default mode pairs them, -s does not *)
+Theorem C13_sorted_equals_unsorted_needs_key_identification_refuted :
+  exists o left right,
+    List.length (lj o) = List.length (rj o) /\ left_sorted o (keyed o (lefts o left)) /\ StronglySorted (rle o) right
+    /\ ~ Permutation (join_sorted o left right) (join_unsorted o left right).
+Proof. exact sorted_vs_unsorted_comma_witness. Qed.
+Print Assumptions C13_sorted_equals_unsorted_needs_key_identification_refuted.
+
+(* composition layout as a list equation, ALL options and records: the paired record is the candidate list
+   (join fields under the -j names with the left values) ++ (left non-join fields, left order, --lp prefixed)
+   ++ (right non-join fields, right order, --rp prefixed) written field by field into an empty record (PutCopy) *)
+Theorem C13_composition_layout :
+  forall o l r, compose o l r = put_all (cands o l r) [].
+Proof. exact compose_layout. Qed.
+Print Assumptions C13_composition_layout.
+
+(* ... which IS the candidate list when its names are distinct ... *)
+Theorem C13_composition_layout_distinct_names :
+  forall o l r, NoDup (map fst (cands o l r)) -> compose o l r = cands o l r.
+Proof. exact compose_layout_distinct. Qed.
+Print Assumptions C13_composition_layout_distinct_names.
+
+(* ... and in general has the candidates' names in first-occurrence order, each with its LAST candidate value (a colliding
+   right field overwrites the value at the left field's position) *)
+Theorem C13_composition_layout_collisions :
+  forall o l r,
+    keys (compose o l r) = fresh_keys [] (cands o l r)
+    /\ forall k, get k (compose o l r) = get k (rev (cands o l r)).
+Proof. exact compose_names_and_values. Qed.
+Print Assumptions C13_composition_layout_collisions.
+
+(* the join part is the -j names zipped with the left join values whenever the left record has them all (it has when paired) *)
+Theorem C13_composition_join_part :
+  forall ln on l vs, List.length ln = List.length on -> selected ln l = Some vs -> join_cands ln on l = combine on vs.
+Proof. exact join_cands_all. Qed.
+Print Assumptions C13_composition_join_part.
+
+(* non-vacuity: heterogeneous names -l/-r/-j, prefixes, and a collision without prefixes *)
+Example C13_composition_nonvacuous :
+  let o1 := mkOpts [B "lid"] [B "rid"] [B "id"] (B "L_") (B "R_") None false false false false in
+  let o2 := mkOpts [B "lid"] [B "rid"] [B "id"] [] [] None false false false false in
+  let l := [(B "a", B "1"); (B "lid", B "7"); (B "b", B "2")] in
+  let r := [(B "rid", B "7"); (B "a", B "3"); (B "c", B "4")] in
+  NoDup (map fst (cands o1 l r))
+  /\ compose o1 l r = [(B "id", B "7"); (B "L_a", B "1"); (B "L_b", B "2"); (B "R_a", B "3"); (B "R_c", B "4")]
+  /\ ~ NoDup (map fst (cands o2 l r))
+  /\ compose o2 l r = [(B "id", B "7"); (B "a", B "3"); (B "b", B "2"); (B "c", B "4")].
+Proof.
+  cbv zeta. split; [apply nodupb_NoDup; vm_compute; reflexivity|]. split; [vm_compute; reflexivity|].
+  split; [rewrite <- nodupb_NoDup; vm_compute; discriminate|vm_compute; reflexivity].
+Qed.
 
 Example C13_nonvacuous :
   let o := mkOpts [B "id"] [B "id"] [B "id"] [] [] None false true true false in
@@ -145,18 +225,19 @@ Example C13_nonvacuous :
 Proof. vm_compute. repeat split; reflexivity. Qed.
 
 (* the hypotheses of the sorted = unsorted theorem are met by a non-trivial input: duplicate keys on both sides,
-   an unmatched key on each side, a key-less right record *)
+   an unmatched key on each side, a key-less right record, a key-less LEFT record in the middle of the file and one whose
+   key is empty under --ignore-empty *)
 Example C13_nonvacuous_sorted :
-  let o := mkOpts [B "id"] [B "id"] [B "id"] [] [] None false true true false in
-  let left := [[(B "id", B "1"); (B "l", B "x")]; [(B "id", B "1"); (B "l", B "z")]; [(B "id", B "2"); (B "l", B "y")]] in
+  let o := mkOpts [B "id"] [B "id"] [B "id"] [] [] None false true true true in
+  let left := [[(B "id", B "1"); (B "l", B "x")]; [(B "l", B "nokey")]; [(B "id", B "1"); (B "l", B "z")]; [(B "id", B ""); (B "l", B "void")];
+               [(B "id", B "2"); (B "l", B "y")]] in
   let right := [[(B "id", B "1"); (B "r", B "p")]; [(B "r", B "nokey")]; [(B "id", B "1"); (B "r", B "q")]; [(B "id", B "3"); (B "r", B "s")]] in
-  (forall l, In l (lefts o left) -> has_keys o l = true)
-  /\ left_sorted o (lefts o left) /\ StronglySorted (rle o) right
-  /\ List.length (join_sorted o left right) = 7%nat
+  left_sorted o (keyed o (lefts o left)) /\ StronglySorted (rle o) right
+  /\ List.length (keyless o (lefts o left)) = 2%nat
+  /\ List.length (join_sorted o left right) = 9%nat
   /\ join_sorted o left right <> join_unsorted o left right.
 Proof.
-  cbv zeta. split; [intros l [<-|[<-|[<-|[]]]]; reflexivity|].
-  split; [repeat constructor; unfold kle; vm_compute; discriminate|].
+  cbv zeta. split; [vm_compute; repeat constructor; unfold kle; vm_compute; discriminate|].
   split; [repeat constructor; unfold rle; vm_compute; try exact I; discriminate|].
-  split; vm_compute; [reflexivity|discriminate].
+  split; [vm_compute; reflexivity|]. split; vm_compute; [reflexivity|discriminate].
 Qed.
